@@ -23,6 +23,7 @@ Judge(e) ==
          LET d == TlshDistance(e.cfg, e.d1, e.d2) IN
          IF e.raised # "" THEN <<C("must-not-raise", d)>>
          ELSE IF \E q \in 1..Len(e.obs) : e.obs[q] # d THEN <<C("distance (objects, bytes, mixed, both orders)", d)>> ELSE <<>>
+    [] e.op = "tlsh_lvalue" -> Want(e, TlshLvalue(e.len))                   \* the length byte as a function of the data length alone
     [] e.op = "nil" -> Want(e, NilsimsaT(e.target, e.data))
     [] e.op = "nil_split" -> Want(e, NilsimsaT(e.target, e.a \o e.b))
     [] e.op = "nil_multi" -> Want(e, NilsimsaT(e.target, CatAll(e.pieces, 1, <<>>)))     \* any number of pieces, any byte positions
